@@ -215,14 +215,15 @@ def expected_rows(frame_m, model, write_op):
         cast = cast_of(c)
         nat = np.dtype(cast) if cast else a.dtype.newbyteorder('=')
         be = nat.newbyteorder('>')
-        b = np.ascontiguousarray(a).astype(be)
+        with np.errstate(all='ignore'):
+            b = np.ascontiguousarray(a).astype(be)
         cols.append(b)
         info.append({'name': c.name, 'dtype': nat.name, 'code': NP_CODE[nat.name], 'shape': list(a.shape[1:]) or [1],
                      'src_dtype': a.dtype.str, 'cast': cast})
     n = cols[0].shape[0] if cols else 0
     rows = []
     for i in range(n):
-        rows.append([col[i].tobytes() for col in cols])
+        rows.append([col[i:i + 1].tobytes() for col in cols])
     return rows, info
 
 
